@@ -264,6 +264,12 @@ func (p *Provider) getLightBlock(ctx context.Context, height int64) (*lightBlock
 		pf.RecordFailure()
 		return nil, nil, err
 	}
+	// Ensure that the peer returned the light block for the queried height. The height in the
+	// response envelope is not covered by any signature, the height in the signed header is.
+	if clb.SignedHeader == nil || clb.SignedHeader.Header == nil || clb.Height != height {
+		pf.RecordBadPeer()
+		return nil, nil, consensus.ErrVersionNotFound
+	}
 
 	rsp := &lightBlock{
 		lb:  &lb,
